@@ -150,7 +150,7 @@ func (eng *Engine) VerifyFunc(c *FuncContract) (res *FuncResult) {
 	}
 	// anchors that never matched are unbound contracts
 	for i, a := range c.Anchored {
-		if !fc.anchorHit[i] {
+		if !fc.anchorHit[i] && !a.Optional {
 			res.Unbound = append(res.Unbound, fmt.Sprintf("%s: anchored clause never matched: at %s %s #%d (%s:%d)", res.Name, a.AnchorKind, a.AnchorName, a.AnchorOrd, a.File, a.Line))
 		}
 	}
